@@ -189,7 +189,13 @@ func makeTimeArshaler(fncs *arshaler, t reflect.Type) *arshaler {
 				if !stringify {
 					break
 				}
-				val = jsonwire.UnquoteMayCopy(val, flags.IsVerbatim())
+				if uo.Flags.Get(jsonflags.CallMethodsWithLegacySemantics) && !uo.Flags.Has(jsonflags.FormatTag) {
+					// For historical reasons, v1 called Time.UnmarshalJSON (also for a map key),
+					// which parses the text between the quotes without unescaping it.
+					val = val[len(`"`) : len(val)-len(`"`)]
+				} else {
+					val = jsonwire.UnquoteMayCopy(val, flags.IsVerbatim())
+				}
 				if err := u.unmarshal(val); err != nil {
 					if uo.Flags.Get(jsonflags.ReportErrorsWithLegacySemantics) {
 						return err // unlike marshal, never wrapped
